@@ -38,7 +38,7 @@ TSTART = 58123.456789012345
 
 
 def REQUIRED(tier):
-    return [f"api:{a}" for a in APIS] + ["tstart_checks", "label_checks", "shape_checks", "foff>0", "start>0", "regime:crosses_utc_midnight", "regime:remainder_longer_than_output", "ts_to_dat:odd_length", "regime:block_padded_in_front", "regime:block_padded_behind", "regime:channels_arriving_before_the_first", "probe:channel_window_one_past_the_band"]
+    return [f"api:{a}" for a in APIS] + ["tstart_checks", "label_checks", "shape_checks", "foff>0", "start>0", "regime:crosses_utc_midnight", "regime:remainder_longer_than_output", "ts_to_dat:odd_length", "regime:block_padded_in_front", "regime:block_padded_behind", "regime:channels_arriving_before_the_first", "probe:channel_window_one_past_the_band", "tim_products_of_an_8bit_observation"]
 
 
 def cases(tier, seed):
@@ -194,6 +194,23 @@ def run_case(case, ctx):
             sigfile.write_fil(p8, X8, 8, tsamp=TSAMP, tstart=TSTART, fch1=fch1, foff=foff)
             f8 = FilReader(p8)
             f8.collapse(quiet=True, description="v").to_tim(os.path.join(d, f"t8_{case['pseed']}.tim"))
+            # the time-series products of the 8-bit observation are 32-bit files: each .tim must declare the depth its samples were written
+            # with, hold one sample per input sample and read back as the series that was written
+            for how in ("collapse", "read_chan", "dedisperse"):
+                ser = {"collapse": lambda: f8.collapse(quiet=True, description="v"), "read_chan": lambda: f8.read_chan(nch // 2, quiet=True, description="v"),
+                       "dedisperse": lambda: f8.dedisperse(0.0, quiet=True, description="v")}[how]()
+                tp = ser.to_tim(os.path.join(d, f"t8{how}_{case['pseed']}.tim"))
+                ctx.count("tim_products_of_an_8bit_observation")
+                td, thl, traw = sigfile.parse_file(tp)
+                want = np.asarray(ser.data, dtype=np.float32)
+                if td["nbits"] * want.size != 8 * len(traw):
+                    ctx.violation(f"nbits[tim-product-of-8bit-observation:{how}]", f"{how}().to_tim(): header says nbits={td['nbits']}, {len(traw)} data bytes hold {want.size} samples", case)
+                    return
+                back = TimeSeries.from_tim(tp)
+                if back.header.nsamples != want.size or not np.array_equal(np.asarray(back.data, dtype=np.float32), want):
+                    ctx.violation(f"readback[tim-product-of-8bit-observation:{how}]", f"{how}().to_tim() re-opened: {back.header.nsamples} samples (nbits {back.header.nbits}) for {want.size} written, or other values", case)
+                    return
+                os.unlink(tp)
             fw = f8.header.prep_outfile(out)
             try:
                 fw.cwrite(X8.ravel())
